@@ -422,6 +422,18 @@ theorem fallback_with_pair_no_loads (needle : Slice) (p : Pair) (hp : p.ValidFor
     ∃ r, Fallback.withPair needle p c = .ok r c :=
   ⟨_, Fallback.withPair_ok needle p hp c⟩
 
+/-- The same constructor with ANY pair, in particular one selected on a different (longer)
+needle: it builds the finder or panics on the checked index; it panics exactly when an offset
+is outside the needle, and never reads (counter and load trace untouched either way). -/
+theorem fallback_with_pair_foreign (needle : Slice) (p : Pair) (c : Ctr) :
+    (p.index1.toNat < needle.len ∧ p.index2.toNat < needle.len ∧
+      ∃ r, Fallback.withPair needle p c = .ok r c) ∨
+    ((¬ (p.index1.toNat < needle.len ∧ p.index2.toNat < needle.len)) ∧
+      ∃ site, Fallback.withPair needle p c = .fault (.panic site)) := by
+  rcases Fallback.withPair_total needle p c with ⟨h1, h2, h⟩ | h
+  · exact .inl ⟨h1, h2, _, h⟩
+  · exact .inr h
+
 /-- Portable `find_prefilter` (safe code; its only memory access besides checked indexing is the
 `memchr` it calls, which is a parameter here and assumed correct, `MemchrOk`): for every finder
 and every valid haystack it returns normally. -/
@@ -579,6 +591,7 @@ end Memchr.Props.C05
 #print axioms Memchr.Props.C05.pair_with_ranker_no_loads
 #print axioms Memchr.Props.C05.pair_new_no_loads
 #print axioms Memchr.Props.C05.fallback_with_pair_no_loads
+#print axioms Memchr.Props.C05.fallback_with_pair_foreign
 #print axioms Memchr.Props.C05.fallback_prefilter_reads_ok
 #print axioms Memchr.Props.C05.twoway_find_reads_ok
 #print axioms Memchr.Props.C05.twoway_rfind_reads_ok
